@@ -374,7 +374,9 @@ class Program:
                 return text
             mm = re.match(r'^impl(?:<[^>]*>)?\s+(.+?)\s+for\s+(.+?)\s*$', text)
             if mm:
-                return re.sub(r'<.*>$', '', mm.group(1).strip()).split('::')[-1]
+                tr = re.sub(r'<.*>$', '', mm.group(1).strip()).split('::')[-1]
+                if re.fullmatch(r'\w+', tr):       # not a macro metavariable (`impl $trait<$type> for X`)
+                    return tr
         except Exception:
             pass
         return None
